@@ -387,6 +387,11 @@ func (jp *jobProvider) refreshFile(stat os.FileInfo, filename string, symlink st
 		jp.errorOpenFileMetric.Inc()
 		return
 	}
+	// the name may point to another file than the one the watcher took its stat of
+	// (rename rotation in between): the job's identity must be the identity of what was opened
+	if opened, err := file.Stat(); err == nil {
+		stat = opened
+	}
 
 	jp.addJob(file, stat, filename, symlink)
 }
